@@ -20,6 +20,15 @@ are correct errors on one class and must succeed on another.  One oracle per ins
 of the instance's own class chain.  One-chain families are also compared with the Lean family model
 (Obj/PropsFamily.lean: class caches shared and built by whichever instance walks first).
 
+Two handlers (stream `two-handlers`, oracle only; notes/STATE_AUDIT.md G6): TWO DBusObjectHandlers, each with its own
+recording connection, in one scenario; `['via', h, op]` sends an export / unexport / remote call through handler h.
+Objects are exported on one handler, on both in either order, twice, unexported from the first / the last,
+re-exported, moved, a second export fails, or never exported.  Judged: a reply leaves on the connection the call
+arrived on; an assignment to an emitting property of an object some handler holds emits exactly one
+PropertiesChanged in total; whatever an assignment emits leaves on a connection the object WAS exported on (none at
+all for an object never exported).  Not judged (the statement does not say): which of the handlers that held the
+object gets the signal, and what an object unexported everywhere does.
+
 Two independent judgements:
   S3  the Lean model (lean/TxdbusModel/Obj/Props.lean through drv_c17) prints the same lines;
   S4  `Oracle` below, written from the property statement, keeps its own (interface, property) -> value
@@ -71,6 +80,10 @@ ASSUMPTIONS = [
     "a property declared readable=False, writeable=False (normalised to access 'read') is not judged for visibility",
     "signature 'h' (unix fd) properties are not generated",
     'no user interface declares a signal called PropertiesChanged; calls arrive one at a time',
+    'several DBusObjectHandlers: the statement fixes how many PropertiesChanged an assignment emits, not on which of '
+    "the connections the object is or was exported on; the oracle demands one signal in total, on a connection whose "
+    'handler held the object at some time (none for an object never exported); an object unexported from every '
+    'handler is not judged; handlers / unexport are not in the Lean model (oracle-only stream two-handlers)',
 ]
 RULE = ('a case is one (class chain, instances, history); distinct = distinct canonical JSON of the case; '
         'non-trivial = the history contains at least one remote call answered with a method return and at '
